@@ -112,6 +112,10 @@ class C14(PropertyCheck):
                 for l in range(8):
                     cases.append(Case("c14 %d %d %s" % (g, l, L(p)), "degenerate"))
         arb = ["a//b", "./a", "a/..", "a/./b", "/a", "//", "a/../b", "../a", "a/.", "~", "a\\b", "a/b//", "/a/b", " / "]
+        # multi-byte characters right next to the cuts Path::parent / file_name make (assumption A-fs, UTF-8 slices): 2-, 3- and 4-byte
+        # sequences before / after '/', also in shapes outside the modelled domain
+        arb += ["é/é", "日/本/", "/日", "é//日", "./é", "日/..", "\U0001F600/\U0001F600", "a/\U0001F600/", "\U0001F600//é/.", "é/./日", "../日",
+                "\u00e9", "日本/", "\ud7ff/\ue000", "\U0010ffff/\U0010ffff/\U0010ffff"]
         for n in range(0, 6):
             for t in itertools.product("a./ ", repeat=n):
                 arb.append("".join(t))
